@@ -32,7 +32,9 @@ def tonumpy(poly: PolyLike) -> numpy.ndarray:
         raise numpoly.FeatureNotSupported(
             "only constant polynomials can be converted to array."
         )
-    idx = numpy.argwhere(numpy.all(poly.exponents == 0, -1)).item()
+    idx = numpy.argwhere(numpy.all(poly.exponents == 0, -1))
+    if poly.size and not idx.size:
+        return numpy.zeros(poly.shape, dtype=poly.dtype)
     if poly.size:
-        return numpy.array(poly.coefficients[idx])
+        return numpy.array(poly.coefficients[idx.item()])
     return numpy.array([])
